@@ -151,6 +151,7 @@ let () = each_line (fun line ->
                 | _, _ -> "NOFUEL"
               end) (split_on '/' g))) (split_on ';' groups) in
       Printf.printf "n=%d %s\n" n (String.concat ";" gs)
+    | "macro" :: _ :: name :: meta :: _ -> Printf.printf "name=%s meta=%s\n" name meta
     | "rej" :: _ :: flat :: _ :: appname :: apro :: absf :: _ ->
       let a = parse_app flat in
       let ap = parse_apro apro in
